@@ -24,12 +24,29 @@ Property clause → theorem
                                                                     `C13.netfees_delta_exact_counterexample`
 * the two closes after the repair proposed in notes/C13.md        → `C13.repaired_surplus_close_exact`, `C13.repaired_debt_close_exact`
 
+Depth round (the savings reward, the auction start decision and the emergency guards are now INSIDE the model):
+* the reward handed to the ledger is ≥ 1 whole unit, whatever `math.Pow` returned                → `C13.reward_paid_pos`
+* accrued amount ≥ 0; zero for zero rate / zero elapsed time; monotone in the balance            → `C13.accrued_nonneg`, `C13.accrued_zero_rate`,
+                                                              `C13.accrued_zero_time` + `C13.nothing_paid_for_zero_accrual`, `C13.accrued_mono_balance`
+* never more than the collector's net fees of the (app, asset); unpayable ⇒ message rejected     → `C13.reward_le_netfees`,
+                                                              `C13.reward_calc_le_netfees`, `C13.reward_unpayable_rejects`
+* paying it keeps `deposited = Σ net` and custody ≥ Σ net fees — histories with the reward COMPUTED, no assumption about it
+                                                            → `C13.reachableT_inv`, `C13.deposited_eq_sum_netbalance_timed`,
+                                                              `C13.locker_custody_ge_deposited_timed`, `C13.netfees_nonneg_timed`,
+                                                              `C13.collector_custody_timed_partial`
+* a surplus auction starts only if net fees ≥ surplus threshold + lot and takes exactly the lot; a debt auction only if net fees ≤
+  debt threshold − lot; nothing starts when switched off; a sweep keeps the books
+                                                            → `C13.surplus_start_only_above_threshold`, `C13.debt_start_only_below_threshold`,
+                                                              `C13.no_start_when_switched_off`, `C13.activation_sweep_keeps_books`
+* emergency shutdown / kill switch on ⇒ create, deposit, whitelist rejected, nothing changes      → `C13.shutdown_blocks_create_deposit_whitelist`
+
 All statements quantify over every configuration (asset ids, app ids, collector lookup keys), every finite op list
 (`Comdex.Locker.Op`: funding, whitelisting, locker create / deposit / withdraw / close / reward calculation, saving-rate change,
 fee inflows from vault create-draw / repay / close, liquidation penalties, auction returns, raw net-fee decrease,
 `GetAmountFromCollector`, surplus fund, second-generation surplus / debt close) started from empty books, a rejected message
 leaving the state unchanged (`runSkip`), and every value of the external inputs subject to `Op.extOk` (an accrued reward that is
-paid is ≥ 0; a raw decrease is ≥ 0; interest and closing fee of a vault close are ≥ 0) — the driver checks these on every line.
+paid is ≥ 0 — a THEOREM for the computed reward; a raw decrease is ≥ 0; interest and closing fee of a vault close are ≥ 0) — the driver
+checks these on every line.
 -/
 namespace Comdex.C13
 open Comdex.Locker
